@@ -1,13 +1,16 @@
 package queue
 
 import (
+	"bytes"
 	"context"
 	"crypto/tls"
+	"encoding/json"
 	"errors"
 	"fmt"
 	"io"
 	"net"
 	"os"
+	"reflect"
 	"sort"
 	"strconv"
 	"strings"
@@ -469,6 +472,95 @@ func c01Sender(form byte) string {
 	panic("C01 run: sender form " + string(form))
 }
 
+// c01ForeignMeta: the meta-data file of a spool entry as another build of the server would have
+// written it - for THIS build the same data (encoding/json: unknown fields are skipped, the order of
+// the keys and white space mean nothing, an absent field is its zero value).  The result is checked
+// against that claim with the plain decoder before it is used.
+const c01MetaForms = "acbdniozw"
+
+func c01ForeignMeta(blob []byte, forms string) []byte {
+	must := func(err error) {
+		if err != nil {
+			panic("C01 run: V=: " + err.Error())
+		}
+	}
+	generic := func(b []byte) map[string]interface{} {
+		dec := json.NewDecoder(bytes.NewReader(b))
+		dec.UseNumber()
+		var m map[string]interface{}
+		must(dec.Decode(&m))
+		return m
+	}
+	// insert a member right behind the '{' of the object that is the value of key (key "" = the document)
+	inObject := func(s, key, member string) string {
+		at := strings.Index(s, "{")
+		if key != "" {
+			at = strings.Index(s, `"`+key+`":{`)
+			if at < 0 {
+				return s
+			}
+			at += len(key) + 3
+		}
+		rest := strings.TrimLeft(s[at+1:], " \t\r\n")
+		if strings.HasPrefix(rest, "}") {
+			return s[:at+1] + member + s[at+1:]
+		}
+		return s[:at+1] + member + "," + s[at+1:]
+	}
+	out := strings.TrimSpace(string(blob))
+	for _, f := range forms {
+		switch f {
+		case 'a':
+			t := strings.TrimRight(out, " \t\r\n")
+			out = t[:len(t)-1] + `,"SpoolFormat":3}` + out[len(t):]
+		case 'c':
+			out = inObject(out, "", `"Routing":{"Hops":["mx1.example.org","mx2.example.org"],"Deadline":"2031-01-02T03:04:05Z","Cost":[1,2.5,{"x":null}]}`)
+		case 'b':
+			out = inObject(out, "MsgMeta", `"SubmittedVia":"submission"`)
+		case 'd':
+			out = inObject(out, "SMTPOpts", `"DeliverBy":{"Seconds":600,"Mode":"R"}`)
+		case 'n':
+			out = inObject(out, "", `"HoldUntil":null`)
+		case 'i':
+			b, err := json.MarshalIndent(generic([]byte(out)), "", "\t")
+			must(err)
+			out = string(b)
+		case 'o':
+			b, err := json.Marshal(generic([]byte(out)))
+			must(err)
+			out = string(b)
+		case 'z':
+			m := generic([]byte(out))
+			drop := func(m map[string]interface{}) {
+				for k, v := range m {
+					if v == nil || v == "" || v == false || v == json.Number("0") {
+						delete(m, k)
+					}
+				}
+			}
+			drop(m)
+			if mm, ok := m["MsgMeta"].(map[string]interface{}); ok {
+				drop(mm)
+			}
+			b, err := json.Marshal(m)
+			must(err)
+			out = string(b)
+		case 'w':
+			out = "\r\n  " + out + " \n\n\t"
+		default:
+			panic("C01 run: V= form " + string(f))
+		}
+	}
+	// the claim: the build under test reads the same data from both spellings
+	var was, is QueueMetadata
+	must(json.Unmarshal(blob, &was))
+	must(json.Unmarshal([]byte(out), &is))
+	if !reflect.DeepEqual(was, is) {
+		panic(fmt.Sprintf("C01 run: V=%s: the rewritten meta-data does not hold the same data\n%s\n%s", forms, blob, out))
+	}
+	return []byte(out)
+}
+
 // c01Ext: the optional tokens of a C01 run line.
 //
 //	R=<k.k...|->   the server restarts before attempt k (0-based; 0 = between the acceptance of the
@@ -485,22 +577,30 @@ func c01Sender(form byte) string {
 //	               repaired and the server restarted.  kinds: h = ID.header is a directory (opens, the read
 //	               fails with EISDIR in Queue.dispatch), m = ID.meta is cut short (short read: the
 //	               decoder fails in readDiskQueue), d = ID.meta is a directory
+//	V=<k><forms>.<k><forms>...   while the server is down before attempt k (an R= or T= names k) the
+//	               entry's meta-data is rewritten the way ANOTHER build of the server would have left it
+//	               (upgrade, downgrade, a second host sharing the spool): the same data for this build,
+//	               spelled differently.  forms (c01ForeignMeta): a unknown scalar field at the end, c unknown
+//	               structured field in front, b unknown field inside MsgMeta, d unknown field inside
+//	               MsgMeta.SMTPOpts, n unknown field whose value is null, i indented, o keys in alphabetical
+//	               order, z fields holding their zero value left out, w white space around the document
 type c01Ext struct {
-	faults   map[int]string
-	restarts map[int]int
-	utf8     bool
-	sender   byte
-	orig     string
-	forms    string
-	header   int
-	foreign  map[int][]c01Foreign
-	conn     int // -1: no ConnState (a locally generated message)
-	traced   bool
-	host     int
+	otherBuild map[int]string
+	faults     map[int]string
+	restarts   map[int]int
+	utf8       bool
+	sender     byte
+	orig       string
+	forms      string
+	header     int
+	foreign    map[int][]c01Foreign
+	conn       int // -1: no ConnState (a locally generated message)
+	traced     bool
+	host       int
 }
 
 func c01ParseExt(toks []string, rcpts []int) c01Ext {
-	e := c01Ext{faults: map[int]string{}, restarts: map[int]int{}, utf8: true, sender: 'a', orig: strings.Repeat("-", len(rcpts)), foreign: map[int][]c01Foreign{}, conn: -1}
+	e := c01Ext{otherBuild: map[int]string{}, faults: map[int]string{}, restarts: map[int]int{}, utf8: true, sender: 'a', orig: strings.Repeat("-", len(rcpts)), foreign: map[int][]c01Foreign{}, conn: -1}
 	for _, tok := range toks {
 		switch {
 		case tok == "R=-":
@@ -526,6 +626,18 @@ func c01ParseExt(toks []string, rcpts []int) c01Ext {
 					panic("C01 run: " + tok)
 				}
 				e.faults[k] += f[len(f)-1:]
+			}
+		case strings.HasPrefix(tok, "V=") && len(tok) > 2:
+			for _, f := range strings.Split(tok[2:], ".") {
+				i := 0
+				for i < len(f) && f[i] >= '0' && f[i] <= '9' {
+					i++
+				}
+				k, err := strconv.Atoi(f[:i])
+				if err != nil || i == len(f) || strings.Trim(f[i:], c01MetaForms) != "" {
+					panic("C01 run: " + tok)
+				}
+				e.otherBuild[k] += f[i:]
 			}
 		case strings.HasPrefix(tok, "X=") && len(tok) >= 4 && len(tok)%2 == 0:
 			e.forms = tok[2:]
@@ -565,6 +677,11 @@ func c01ParseExt(toks []string, rcpts []int) c01Ext {
 			}
 		default:
 			panic("C01 run: " + tok)
+		}
+	}
+	for k := range e.otherBuild {
+		if e.restarts[k] == 0 && e.faults[k] == "" {
+			panic("C01 run: V= names an attempt no restart precedes (a running server does not read its own meta-data back)")
 		}
 	}
 	if e.faults[0] != "" && e.restarts[0] == 0 {
@@ -931,6 +1048,7 @@ func c01Run(out *vh.Out, op string, seed uint64) {
 	// slot leaves the time wheel when the dispatch begins and Queue.Close waits for its end: no
 	// clock in that), repair.  Then the restart proper.
 	readFaults := 0
+	otherBuilds := ""
 	resume := func(k int) *Queue {
 		for _, kind := range ext.faults[k] {
 			file := dir + "/" + id + ".header"
@@ -961,6 +1079,15 @@ func c01Run(out *vh.Out, op string, seed uint64) {
 			must(os.RemoveAll(file))
 			must(os.Rename(file+".sav", file))
 			readFaults++
+		}
+		if forms := ext.otherBuild[k]; forms != "" {
+			file := dir + "/" + id + ".meta"
+			if blob, err := os.ReadFile(file); err == nil {
+				if err := os.WriteFile(file, c01ForeignMeta(blob, forms), 0o600); err != nil {
+					panic(err)
+				}
+				otherBuilds += forms
+			}
 		}
 		return restart(ext.restarts[k])
 	}
@@ -1203,6 +1330,9 @@ func c01Run(out *vh.Out, op string, seed uint64) {
 		tgt.mu.Unlock()
 	}
 	out.Stat(fmt.Sprintf("attempts.%d", attempts))
+	for _, f := range otherBuilds {
+		out.Stat("run.other-build." + string(f))
+	}
 	if readFaults > 0 {
 		out.Stat(fmt.Sprintf("run.read-faults.%d", readFaults))
 		for k, f := range ext.faults {
@@ -1709,6 +1839,7 @@ func TestVerifC01(t *testing.T) {
 		return
 	}
 	r := vh.NewRng(vh.Seed() + 101)
+	rv := vh.NewRng(vh.Seed() + 1101) // the V= dimension draws from its own stream
 	n := vh.N(600)
 	type job struct {
 		op   string
@@ -1977,6 +2108,27 @@ func TestVerifC01(t *testing.T) {
 				}
 			}
 		}
+		// the spool entry as another build left it (V=): every 8th case (mode 3) walks the forms, alone
+		// and in pairs, at the first restart - the one somebody fails after; 40 % of the other histories
+		// with restarts get random forms at a random restart
+		otherTok := ""
+		if strings.HasPrefix(ext, " R=") {
+			ks := strings.Split(ext[3:], ".")
+			if mode == 3 {
+				j := i / 8
+				forms := string(c01MetaForms[j%len(c01MetaForms)])
+				if j%3 == 2 {
+					forms += string(c01MetaForms[(j/3)%len(c01MetaForms)])
+				}
+				otherTok = " V=" + ks[0] + forms
+			} else if rv.Chance(40) {
+				forms := ""
+				for n := 1 + rv.Intn(3); n > 0; n-- {
+					forms += string(c01MetaForms[rv.Intn(len(c01MetaForms))])
+				}
+				otherTok = " V=" + ks[rv.Intn(len(ks))] + forms
+			}
+		}
 		// envelope: SMTPUTF8 or not, shape of the return path, addresses the client named
 		if !dupMode && (mode == 6 || asciiLocal || r.Chance(20)) {
 			utf8 := "1"
@@ -2078,6 +2230,7 @@ func TestVerifC01(t *testing.T) {
 			}
 			ext += headerTok + foreignTok + connTok
 		}
+		ext += otherTok
 		op := fmt.Sprintf("C01 run %d %s %s %s %s%s", maxTries, kind, dsn, strings.Join(rs, ","), strings.Join(plans, ";"), ext)
 		jobs <- job{op, r.Next()}
 	}
